@@ -41,6 +41,26 @@ func init() {
 			},
 		}
 	})
+	// remaining lengths at the first boundary of the length encoding (127,
+	// 128, 129) on every publish path, plain and persisted
+	register("writerslen", func() *Scenario {
+		pl := func(tag string, rl, overhead int) []byte { return pay(tag, rl-overhead) }
+		return &Scenario{
+			Config: baseConfig(),
+			Actors: []ActorSpec{
+				{Name: "reader", Reader: &ReaderSpec{Backoff: true}},
+				{Name: "A", Ops: []Op{{Kind: "pub0", Topic: "w/a", Msg: pl("a127", 127, 2+3)}, {Kind: "pub0", Topic: "w/a", Msg: pl("a128", 128, 2+3)}, {Kind: "pub0r", Topic: "w/a", Msg: pl("a129", 129, 2+3)}}},
+				{Name: "D", Ops: []Op{{Kind: "pub1", Topic: "w/d", Msg: pl("d128", 128, 2+3+2)}, {Kind: "pub2", Topic: "w/e", Msg: pl("e128", 128, 2+3+2)}}},
+			},
+			Faults:  Faults{Cut: true},
+			Horizon: 1500,
+			Final: func(w *World) {
+				w.monitorWire()
+				w.monitorRequests()
+				w.monitorDelivery("C01")
+			},
+		}
+	})
 	// a vectored Publish racing the retransmission after a reconnect
 	register("writers2", func() *Scenario {
 		return &Scenario{
